@@ -53,8 +53,12 @@ class AkArgumentParser(argparse.ArgumentParser):
         self._dependent_parsers = {}
 
     def register_dependent(self, name, parser):
-        """Register dependent parser"""
-        assert name not in self._dependent_parsers
+        """Register dependent parser.
+
+        The same parser may be registered several times (it happens when a
+        command reaches this parser through several parents).
+        """
+        assert self._dependent_parsers.get(name, parser) is parser
         self._dependent_parsers[name] = parser
 
     def add_argument(self, *args, **kwargs):
